@@ -240,6 +240,45 @@ fn check_birth(a: i64, man: bool, st: Strat, via_global: bool, log: &mut Log) {
       }
     }
   }
+  // the deprecated lunar-year getters of the limit and of the fortunes run parallel to the sexagenary-year ones:
+  // lunar year of the birth (from the enumerated months) + civil years elapsed to the end + steps
+  if via_global && st == Strat::Default && !cal::reform_era_near(a.div_euclid(86400)) {
+    let seq = crate::model::lunar_seq::lunar_seq();
+    let n = a.div_euclid(86400);
+    let k = seq.months.partition_point(|lm| lm.first <= n);
+    if k > 0 && n < seq.months[k - 1].first + seq.months[k - 1].days {
+      let lby = seq.months[k - 1].y;
+      #[allow(deprecated)]
+      let r2 = guard(|| {
+        let cl = ChildLimit::from_solar_time(st_of_abs(a), gender);
+        let ey = cl.get_end_time().get_year() as i64;
+        let kk = (a.rem_euclid(7)) as isize + 1;
+        if ey + 10 * kk as i64 + 9 > 9998 || lby < 1 {
+          return None;
+        }
+        let df0 = cl.get_start_decade_fortune();
+        let f0 = cl.get_start_fortune();
+        let (dfk, fk) = (df0.next(kk), f0.next(kk * 3));
+        Some((ey, kk as i64, [cl.get_end_lunar_year().get_year() as i64, df0.get_start_lunar_year().get_year() as i64, df0.get_end_lunar_year().get_year() as i64, dfk.get_start_lunar_year().get_year() as i64, dfk.get_end_lunar_year().get_year() as i64, f0.get_lunar_year().get_year() as i64, fk.get_lunar_year().get_year() as i64]))
+      });
+      match r2 {
+        Ok(Some((ey, kk, got))) => {
+          let base = lby + ey - b.0;
+          let want = [base, base, base + 9, base + 10 * kk, base + 10 * kk + 9, base, base + 3 * kk];
+          log.count("fortune.lunar_year_getters", 7);
+          if got != want {
+            log.violate(format!("C16/lunar-years/{}", key()), "deprecated lunar-year getters of the limit and the fortunes", key(), format!("{:?}", got), format!("{:?} (birth in lunar year {}, limit ends in {})", want, lby, ey));
+          }
+        }
+        Ok(None) => {}
+        Err(msg) => {
+          if !msg.contains("illegal solar day: 1582-10-") {
+            log.violate(format!("C16/lunar-years/{}", key()), "deprecated lunar-year getters of the limit and the fortunes", key(), format!("panic: {}", msg), "lunar years".into());
+          }
+        }
+      }
+    }
+  }
   log.sample(|| format!("birth {} {} ({:?}): {} s {} the Jie ({}, {}) -> counts {:?}", fmt_abs(a), if man { "man" } else { "woman" }, st, diff, if forward { "before" } else { "after" }, jie.y, jie.i, want_counts));
 }
 
@@ -367,9 +406,10 @@ pub fn run(cfg: &Cfg) -> (Log, Meta) {
   log.floor("end.month_or_day_carried", cfg.tier.pick(5_000, 200_000));
   log.floor("strategy.direct_or_switched_calls", cfg.tier.pick(3_000, 80_000));
   log.floor("related.births_in_sequence", cfg.tier.pick(2_000, 40_000));
+  log.floor("fortune.lunar_year_getters", cfg.tier.pick(100_000, 3_000_000));
   let meta = Meta {
     rule: format!(
-      "single-threaded sequences of 10 related births (first days of January / December after Daxue / first days of the next January of one civil year in both orders, both sides of the Jie inside one civil month, the same month one year later, both genders) before anything else runs, each judged like every other birth; {} seeded births x both genders through ChildLimit::from_solar_time with the default strategy (1/3 in 1570-1583, 1/12 within 3 s of a Jie instant, 1/12 on month/year ends late in the day, 1/12 on days 28-31): direction from year-stem polarity and gender, eight characters, governing Jie from the term list, counts by the 3 d = 1 y ... 1 s = 2 min rule, end = birth + counts by nominal calendar addition, 0 <= end - birth <= 11 y + 2 d, decade fortune 0 and k (pillar, start/end age, years, index, start fortune), fortune 0 and 3k (pillar, age, year), ages; {} births per alternative strategy (China95, LunarSect1, LunarSect2 and Default) called directly and through the guarded global provider switch: counts by the strategy's rule (Sect1: reported counts), same end-instant and fortune oracles. Ends whose nominal day carry meets October 1582 at a day number > 4 other than 15..21 form the signature class C16/end-1582-10 (listed finding). distinct_nontrivial = distinct (birth, gender, strategy, route).",
+      "single-threaded sequences of 10 related births (first days of January / December after Daxue / first days of the next January of one civil year in both orders, both sides of the Jie inside one civil month, the same month one year later, both genders) before anything else runs, each judged like every other birth; {} seeded births x both genders through ChildLimit::from_solar_time with the default strategy (1/3 in 1570-1583, 1/12 within 3 s of a Jie instant, 1/12 on month/year ends late in the day, 1/12 on days 28-31): direction from year-stem polarity and gender, eight characters, governing Jie from the term list, counts by the 3 d = 1 y ... 1 s = 2 min rule, end = birth + counts by nominal calendar addition, 0 <= end - birth <= 11 y + 2 d, decade fortune 0 and k (pillar, start/end age, years, index, start fortune), fortune 0 and 3k (pillar, age, year), ages, the seven deprecated lunar-year getters (lunar year of the birth by the enumerated months + civil years to the end + steps); {} births per alternative strategy (China95, LunarSect1, LunarSect2 and Default) called directly and through the guarded global provider switch: counts by the strategy's rule (Sect1: reported counts), same end-instant and fortune oracles. Ends whose nominal day carry meets October 1582 at a day number > 4 other than 15..21 form the signature class C16/end-1582-10 (listed finding). distinct_nontrivial = distinct (birth, gender, strategy, route).",
       n_default, n_other
     ),
     assumptions: vec![
